@@ -1039,7 +1039,7 @@ NUMOPS = ['PLUS', 'MINUS', 'MULTIPLY', 'MAXIMUM', 'MINIMUM']
 
 
 def history_script(rng, sizes, forests, steps, snap_every=12, ct=None, final_reclaim=True,
-                   slots_per_forest=4, allow_bulk=False, extra=None, snap_all=True):
+                   slots_per_forest=4, allow_bulk=False, extra=None, snap_all=True, p_clear=0.05):
     """forests: list of dicts(kind, rule, sto, mm, dele).  Returns script text.
     Random mix of constructions, operations within and across forests of the
     same shape, edge copies / assignments / releases, cache maintenance."""
@@ -1117,7 +1117,7 @@ def history_script(rng, sizes, forests, steps, snap_every=12, ct=None, final_rec
                 S.add('copy %d %d' % (s, pick(f)))
                 slots[f].append(s)
                 live[f].append(s)
-        elif r < 0.93:
+        elif r < 0.88 + p_clear:
             S.add(rng.choice(['clearct %d' % f, 'rmstale', 'clearall']))
         elif r < 0.96 and allow_bulk:
             S.add('bulk %d %d' % (pick(f), rng.choice([3, 300, 70000])))
@@ -1236,6 +1236,19 @@ def plan_c07(tier, seed, rng):
             text = history_script(rng, sizes, forests, 150 if tier == 'thorough' else 90, snap_every=15, ct=(style, stale, mx))
             scripts.append(('t%03d_s%dr%dm%d' % (n, style, stale, mx), text))
             n += 1
+    # long histories on a larger shape: enough distinct operations to push the
+    # tables through their growth / garbage-collection thresholds (512 entries
+    # unchained, 4096 chained) while edges are released in between
+    stress = [(1, 0, 1024), (0, 1, 0)] if tier != 'thorough' else [(s_, r_, m_) for s_ in CT_STYLES for r_ in (0, 2) for m_ in (1024, 0)]
+    sizes = [4, 4, 4] if tier != 'thorough' else [4, 4, 4, 2]
+    forests = [dict(kind='mti_s', rule='F', dele='O'), dict(kind='mti_s', rule='Q', dele='P')]
+    st = rng.getstate()
+    for (style, stale, mx) in stress:
+        rng.setstate(st)
+        text = history_script(rng, sizes, forests, 260 if tier != 'thorough' else 700, snap_every=65 if tier != 'thorough' else 175,
+                              ct=(style, stale, mx), slots_per_forest=8, p_clear=0.004)
+        scripts.append(('z%03d_s%dr%dm%d' % (n, style, stale, mx), text))
+        n += 1
     return dict(
         scripts=scripts, validators=[API, STORE], tags={'C07', 'HELD'}, lifecycle=True,
         mc=[('MddStore.tla', 'StoreMC_small.cfg', {})] + ([('MddStore.tla', 'StoreMC_bug_cache.cfg', {'expect_violation': True}),
